@@ -3,6 +3,14 @@
 //! worker that picks them up; the process must terminate, exit non-zero iff a worker died, and
 //! otherwise report exactly the aggregate of the inputs that were not rejected. The event log
 //! must be a run of the Lean `Pipeline` model with those faults.
+//!
+//! Scope notes (second review, item 36). (1) A corrupt `.zip` argument beside valid inputs is a
+//! PRODUCER death (`producer()` panics while classifying its arguments: exit 1, no report), not a
+//! rejected input: the `producer-death` stream records it (`producer_death.corrupt_zip_argument`).
+//! (2) The Profraw/Profdata arm of `consumer` is not all-or-nothing (`try_parse!` inside the loop
+//! over the exported lcov buffers, lib.rs): an item logged as "Error parsing file" may still have
+//! contributed its earlier exports; `Pipeline.fate` (ok / reject / die per item) does not describe
+//! that arm – it is C20's subject (LLVM path), no profraw item is generated here.
 use corrlib::pipe::*;
 use corrlib::*;
 use serde_json::json;
@@ -23,9 +31,20 @@ struct Scenario {
     idle: Vec<usize>,
     /// the producer panics before its k-th send (`panic_producer:<k>`)
     prod_k: Option<usize>,
+    /// consumer threads that panic inside `add_results`, holding the result-map mutex
+    /// (`panic_in_merge:Consumer_<i>`): the mutex is poisoned, every other worker dies at its next
+    /// `lock().unwrap()`
+    in_merge: Vec<usize>,
 }
 
-fn run_scenario(rep: &mut Report, tag: &str, sc: &Scenario, reqs: &mut Vec<String>, ctx: &mut Vec<serde_json::Value>) {
+fn run_scenario(rep: &mut Report, hb: &mut HangBudget, tag: &str, sc: &Scenario, reqs: &mut Vec<String>, ctx: &mut Vec<serde_json::Value>) {
+    let can_die = !sc.die.is_empty() || !sc.idle.is_empty() || sc.prod_k.is_some() || !sc.in_merge.is_empty();
+    if hb.exhausted() && can_die {
+        // every further run with a death could hang as well: the verdict is clear, do not stall
+        hb.skip();
+        rep.count("skipped_after_hangs");
+        return;
+    }
     let dir = rep.workdir.join(tag);
     let _ = std::fs::remove_dir_all(&dir);
     write_inputs(&dir, &sc.inputs);
@@ -46,20 +65,26 @@ fn run_scenario(rep: &mut Report, tag: &str, sc: &Scenario, reqs: &mut Vec<Strin
     if let Some(k) = sc.prod_k {
         fault.push(format!("panic_producer:{}", k));
     }
-    let some_death = !sc.die.is_empty() || !sc.idle.is_empty() || sc.prod_k.is_some();
+    if !sc.in_merge.is_empty() {
+        fault.push(format!("panic_in_merge:{}", sc.in_merge.iter().map(|i| format!("Consumer_{}", i)).collect::<Vec<_>>().join(",")));
+    }
     let cfg = RunCfg {
         dir: &dir,
         args: args.clone(),
         threads: sc.threads,
         perturb: sc.perturb,
         fault: if fault.is_empty() { None } else { Some(fault.join(";")) },
-        limit: Duration::from_secs(LIMIT_S),
+        limit: hb.limit(),
         extra: vec!["-t".into(), "lcov".into(), "--branch".into(), "--no-demangle".into()],
     };
     let out = run_grcov(&cfg);
+    hb.note(&out);
+    // a consumer configured to die inside add_results dies only if it gets an item
+    let merge_death = out.log.iter().any(|e| e.1 == "died_in_merge");
+    let some_death = !sc.die.is_empty() || !sc.idle.is_empty() || sc.prod_k.is_some() || merge_death;
     let case = json!({"op": "faults", "threads": sc.threads, "args": args, "perturb": sc.perturb,
         "die": sc.die, "reject": sc.reject, "natural": sc.natural, "shuffle_seed": sc.shuffle_seed,
-        "idle": sc.idle, "prod_k": sc.prod_k,
+        "idle": sc.idle, "prod_k": sc.prod_k, "in_merge": sc.in_merge,
         "inputs": sc.inputs.iter().map(|i| json!({"name": i.name, "hex": hex(&i.bytes)})).collect::<Vec<_>>()});
     rep.case(
         &format!("{} {:?} {:?} {:?} {:?}", sc.threads, args, sc.perturb, sc.die, sc.reject),
@@ -69,6 +94,14 @@ fn run_scenario(rep: &mut Report, tag: &str, sc: &Scenario, reqs: &mut Vec<Strin
         rep.count(&format!("idle_deaths={}_of_{}", sc.idle.len(), sc.threads));
         if sc.idle.len() == sc.threads {
             rep.count("idle_deaths.all_workers");
+        }
+    }
+    if !sc.in_merge.is_empty() {
+        rep.count(&format!("merge_death.threads={}.{}", sc.threads, if merge_death { "happened" } else { "consumer_got_no_item" }));
+        if merge_death {
+            // who else died on the poisoned mutex (a panic message of lib.rs `lock().unwrap()`)
+            let poisoned = out.stderr.matches("PoisonError").count();
+            rep.count(&format!("merge_death.others_died_on_poisoned_mutex={}", poisoned.min(3)));
         }
     }
     if let Some(k) = sc.prod_k {
@@ -87,7 +120,7 @@ fn run_scenario(rep: &mut Report, tag: &str, sc: &Scenario, reqs: &mut Vec<Strin
             rep.fail(
                 "oracle",
                 None,
-                format!("grcov did not terminate within {} s (worker failure must not hang the process)", LIMIT_S),
+                format!("grcov did not terminate within {} s (worker failure must not hang the process)", cfg.limit.as_secs()),
                 case.clone(),
             );
             return;
@@ -128,7 +161,7 @@ fn run_scenario(rep: &mut Report, tag: &str, sc: &Scenario, reqs: &mut Vec<Strin
             }
         }
     }
-    match log_to_request(&out, sc.threads, false, sc.inputs.len(), &die_ids) {
+    match log_to_request_full(&out, sc.threads, false, sc.inputs.len(), &die_ids, &rej_ids, false) {
         Ok(req) => {
             if reqs.len() < 2 {
                 rep.sample(json!({"threads": sc.threads, "die": sc.die, "reject": sc.reject, "exit": out.exit, "request": req}));
@@ -334,34 +367,53 @@ fn gcc_rejections(rep: &mut Report, rng: &mut Rng) {
 /// given path (the "No input files found" assert), (b) an unreadable `--path-mapping` file, opened
 /// after every item was sent. `main` must notice at the join and exit non-zero; the event log must
 /// be a run of the model with a `prodDies` step after the last send.
-fn producer_deaths(rep: &mut Report, rng: &mut Rng, reqs: &mut Vec<String>, ctx: &mut Vec<serde_json::Value>) {
-    let n = rep.budget(6, 6);
+fn producer_deaths(rep: &mut Report, hb: &mut HangBudget, rng: &mut Rng, reqs: &mut Vec<String>, ctx: &mut Vec<serde_json::Value>) {
+    let n = rep.budget(9, 6);
     for c in 0..n {
+        if hb.exhausted() {
+            hb.skip();
+            rep.count("skipped_after_hangs");
+            continue;
+        }
         let dir = rep.workdir.join(format!("proddeath{}", c));
         let _ = std::fs::remove_dir_all(&dir);
         let threads = *rng.pick(&[1usize, 2, 3]);
-        let empty = c % 2 == 0;
+        let empty = c % 3 == 0;
+        // a file called *.zip that is not a zip archive, beside valid tracefiles: `producer()` panics
+        // while it classifies its arguments ("Failed to parse ZIP file", C17 `RawArg.toArg`), before
+        // anything is sent: a producer death (exit 1, no report for the valid inputs either), NOT a
+        // rejected input in the sense of the third sentence of C07 – recorded as an observation
+        let bad_zip = c % 3 == 2;
         let k = rng.range(1, 7) as usize;
         let inputs = if empty { vec![] } else { gen_inputs(rng, k) };
         write_inputs(&dir, &inputs);
         std::fs::create_dir_all(dir.join("nothing-here")).unwrap();
         let (args, extra): (Vec<String>, Vec<String>) = if empty {
             (vec!["nothing-here".into()], vec!["-t".into(), "lcov".into()])
+        } else if bad_zip {
+            std::fs::write(dir.join("bad.zip"), b"not a zip").unwrap();
+            let mut a: Vec<String> = inputs.iter().map(|i| i.name.clone()).collect();
+            a.insert(rng.below(a.len() as u64 + 1) as usize, "bad.zip".into());
+            (a, vec!["-t".into(), "lcov".into()])
         } else {
             (inputs.iter().map(|i| i.name.clone()).collect(),
              vec!["-t".into(), "lcov".into(), "--path-mapping".into(), "no-such-mapping.json".into()])
         };
         let cfg = RunCfg { dir: &dir, args: args.clone(), threads, perturb: Some(rng.next() % 100000), fault: None,
-            limit: Duration::from_secs(LIMIT_S), extra };
+            limit: hb.limit(), extra };
         let out = run_grcov(&cfg);
-        let case = json!({"op": "producer-death", "kind": if empty { "no-input-files" } else { "path-mapping-unreadable" },
+        hb.note(&out);
+        let case = json!({"op": "producer-death", "kind": if empty { "no-input-files" } else if bad_zip { "corrupt-zip-argument" } else { "path-mapping-unreadable" },
             "threads": threads, "args": args,
             "inputs": inputs.iter().map(|i| json!({"name": i.name, "hex": hex(&i.bytes)})).collect::<Vec<_>>()});
         rep.case(&format!("producer-death {} {} {:?}", empty, threads, args), true);
-        rep.count(if empty { "producer_death.no_input_files" } else { "producer_death.after_all_sends" });
+        rep.count(if empty { "producer_death.no_input_files" } else if bad_zip { "producer_death.corrupt_zip_argument" } else { "producer_death.after_all_sends" });
+        if bad_zip && out.exit.is_some() && out.exit != Some(0) && out.stdout.is_empty() {
+            rep.count("observation.corrupt_zip_beside_valid_inputs_no_report_exit_nonzero");
+        }
         match out.exit {
             None => {
-                rep.fail("oracle", None, format!("grcov did not terminate within {} s after its producer thread panicked", LIMIT_S), case);
+                rep.fail("oracle", None, format!("grcov did not terminate within {} s after its producer thread panicked", cfg.limit.as_secs()), case);
                 continue;
             }
             Some(0) => {
@@ -386,7 +438,7 @@ fn producer_deaths(rep: &mut Report, rng: &mut Rng, reqs: &mut Vec<String>, ctx:
 /// and a producer that panics before its first, a middle or its last send. The process must end,
 /// with a non-zero status, and the event log must be a run of the model with `workerDies` at idle
 /// resp. `prodDies` at that point.
-fn injected_deaths(rep: &mut Report, rng: &mut Rng, reqs: &mut Vec<String>, ctx: &mut Vec<serde_json::Value>) {
+fn injected_deaths(rep: &mut Report, hb: &mut HangBudget, rng: &mut Rng, reqs: &mut Vec<String>, ctx: &mut Vec<serde_json::Value>) {
     let n = rep.budget(18, 8);
     for c in 0..n {
         let k = rng.range(2, 10) as usize;
@@ -408,8 +460,34 @@ fn injected_deaths(rep: &mut Report, rng: &mut Rng, reqs: &mut Vec<String>, ctx:
         // some of the scenarios also lose an item to a dying worker or reject one
         let die = if c % 5 == 4 { vec![rng.below(k as u64) as usize] } else { vec![] };
         let sc = Scenario { inputs, die, reject: vec![], natural: vec![], threads,
-            perturb: if rng.chance(1, 2) { None } else { Some(rng.next() % 100000) }, shuffle_seed: rng.next(), idle, prod_k };
-        run_scenario(rep, &format!("inj{}", c), &sc, reqs, ctx);
+            perturb: if rng.chance(1, 2) { None } else { Some(rng.next() % 100000) }, shuffle_seed: rng.next(), idle, prod_k, in_merge: vec![] };
+        run_scenario(rep, hb, &format!("inj{}", c), &sc, reqs, ctx);
+    }
+}
+
+/// A consumer dies INSIDE `add_results`, while it holds the result-map mutex (hook
+/// `panic_in_merge:Consumer_<i>`): the mutex is poisoned, every other worker that comes to merge
+/// dies in `lock().unwrap()`, with one thread the producer's next send fails. The process must end
+/// with a non-zero status (a half-written batch is never reported), and the event log – `lock`,
+/// `died_in_merge` of the victim, the silent deaths of the others – must be a run of the model
+/// (`workerDies` of a merging worker, `lock` when poisoned). 1, 2 and 4 threads, each consumer index.
+fn merge_deaths(rep: &mut Report, hb: &mut HangBudget, rng: &mut Rng, reqs: &mut Vec<String>, ctx: &mut Vec<serde_json::Value>) {
+    let n = rep.budget(18, 8);
+    for c in 0..n {
+        let threads = [1usize, 2, 4][(c % 3) as usize];
+        // enough inputs that every consumer gets one, and more than the queue holds when all die
+        let k = rng.range(2 * threads as u64 + 2, 3 * threads as u64 + 6) as usize;
+        let inputs = gen_inputs(rng, k);
+        let victim = ((c / 3) as usize) % threads;
+        let mut in_merge = vec![victim];
+        if threads == 4 && c % 2 == 1 {
+            in_merge.push((victim + 1) % threads);
+        }
+        let reject = if c % 4 == 3 { vec![rng.below(k as u64) as usize] } else { vec![] };
+        let sc = Scenario { inputs, die: vec![], reject, natural: vec![], threads,
+            perturb: if rng.chance(1, 2) { None } else { Some(rng.next() % 100000) }, shuffle_seed: rng.next(),
+            idle: vec![], prod_k: None, in_merge };
+        run_scenario(rep, hb, &format!("mergedeath{}", c), &sc, reqs, ctx);
     }
 }
 
@@ -418,21 +496,27 @@ pub fn run(rep: &mut Report) {
                 by the hook, 0-2 more are damaged so that the real parser rejects them; a second stream feeds gcc-compiled \
                 programs of which some have run data that makes gcov fail; --threads in {1,2,3,4}; seeded perturbation; first the fixed scenarios in which \
                 every worker dies with more queued items than queue slots (the deadlock of the original code); \
+                a stream in which a consumer dies inside add_results holding the result-map mutex (1, 2, 4 threads); \
                 non-trivial = at least one fault; distinct = distinct (inputs, faults, threads, order, seed)"
         .to_string();
     let mut rng = Rng::new(rep.seed ^ 0xC07);
     let mut reqs = vec![];
     let mut ctx = vec![];
+    // the first run that does not terminate may take LIMIT_S, later ones 4 s; after 3 of them no
+    // further run with an injected death is started (each is a violation; the verdict is clear)
+    let mut hb = HangBudget::new(LIMIT_S, 4, 3);
+    let hb = &mut hb;
     gcc_rejections(rep, &mut rng.fork());
-    producer_deaths(rep, &mut rng.fork(), &mut reqs, &mut ctx);
-    injected_deaths(rep, &mut rng.fork(), &mut reqs, &mut ctx);
+    producer_deaths(rep, hb, &mut rng.fork(), &mut reqs, &mut ctx);
+    injected_deaths(rep, hb, &mut rng.fork(), &mut reqs, &mut ctx);
+    merge_deaths(rep, hb, &mut rng.fork(), &mut reqs, &mut ctx);
     // fixed scenarios: all workers die early, many items remain (witness of the repaired deadlock)
     for (t, (threads, k)) in [(1usize, 5usize), (1, 9), (2, 12), (3, 14)].iter().enumerate() {
         let inputs = gen_inputs(&mut rng, *k);
         // every input kills its worker: whichever items are picked up first, all workers die
         let die: Vec<usize> = (0..*k).collect();
-        let sc = Scenario { inputs, die, reject: vec![], natural: vec![], threads: *threads, perturb: None, shuffle_seed: t as u64, idle: vec![], prod_k: None };
-        run_scenario(rep, &format!("fixed{}", t), &sc, &mut reqs, &mut ctx);
+        let sc = Scenario { inputs, die, reject: vec![], natural: vec![], threads: *threads, perturb: None, shuffle_seed: t as u64, idle: vec![], prod_k: None, in_merge: vec![] };
+        run_scenario(rep, hb, &format!("fixed{}", t), &sc, &mut reqs, &mut ctx);
     }
     let n = rep.budget(150, 20);
     for i in 0..n {
@@ -465,8 +549,12 @@ pub fn run(rep: &mut Report) {
             shuffle_seed: rng.next(),
             idle: vec![],
             prod_k: None,
+            in_merge: vec![],
         };
-        run_scenario(rep, &format!("s{}", i), &sc, &mut reqs, &mut ctx);
+        run_scenario(rep, hb, &format!("s{}", i), &sc, &mut reqs, &mut ctx);
+    }
+    if hb.hangs > 0 {
+        rep.notes.push(format!("{} run(s) did not terminate; {} further runs with injected deaths were not started", hb.hangs, hb.skipped));
     }
     let answers = run_model(&reqs, &rep.workdir, "pipe");
     for (i, a) in answers.iter().enumerate() {
@@ -487,6 +575,41 @@ pub fn run(rep: &mut Report) {
         }
     }
     rep.count_n("traces_validated", reqs.len() as u64);
+    merge_negatives(rep, &reqs);
+}
+
+/// Negative tests of the trace validator on REAL logs of runs in which a consumer died inside
+/// `add_results`: (a) the same log with exit status 0 claimed – a death holding the mutex can never
+/// end in status 0 (`C07_poisoned_nonzero_exit`); (b) the log without its `died_in_merge` line but
+/// with the non-zero status – without the poisoning nothing explains the status (the other workers'
+/// silent deaths are enabled only when the mutex is poisoned). The model must refuse both.
+fn merge_negatives(rep: &mut Report, reqs: &[String]) {
+    let mut tests: Vec<(&str, String)> = vec![];
+    let mut cands: Vec<&String> = reqs.iter().filter(|r| r.split(' ').any(|t| t.starts_with("W:") && (t.ends_with(",M") || t.contains(",M,"))) && r.ends_with(" E:1")).collect();
+    cands.sort_by_key(|r| r.len());
+    for r in cands.iter().take(4) {
+        tests.push(("exit0-after-death-in-merge", format!("{}E:0", &r[..r.len() - 3])));
+        let without: Vec<String> = r.split(' ').map(|t| if t.starts_with("W:") { t.replace(",M", "") } else { t.to_string() }).collect();
+        tests.push(("death-in-merge-not-logged", without.join(" ")));
+    }
+    let reqs2: Vec<String> = tests.iter().map(|t| t.1.clone()).collect();
+    let ans = run_model(&reqs2, &rep.workdir, "mergenegatives");
+    for (i, a) in ans.iter().enumerate() {
+        rep.case(&format!("merge-negative {} {}", tests[i].0, i), true);
+        rep.count(&format!("merge_negative.{}", tests[i].0));
+        if a.starts_with("rejected fuel") {
+            rep.count("merge_negative.inconclusive");
+        } else if !a.starts_with("rejected") {
+            // (b) can be realisable when the victim was the only worker that mattered: a worker still
+            // inside add_results when main exits with 1 needs ANOTHER death; with none in the log the
+            // model must refuse
+            rep.disagreements_checked += 1;
+            rep.fail("disagreement", None, format!("the trace validator accepts an edited log of a death inside add_results ({}): {}", tests[i].0, a),
+                json!({"op": "merge-negative", "kind": tests[i].0, "request": tests[i].1, "model": a}));
+        } else {
+            rep.count("merge_negative.rejected");
+        }
+    }
 }
 
 pub fn replay(rep: &mut Report, case: &serde_json::Value) {
@@ -513,11 +636,21 @@ pub fn replay(rep: &mut Report, case: &serde_json::Value) {
         shuffle_seed: c["shuffle_seed"].as_u64().unwrap_or(0),
         idle: idxs(&c["idle"]),
         prod_k: c["prod_k"].as_u64().map(|k| k as usize),
+        in_merge: idxs(&c["in_merge"]),
     };
     let mut reqs = vec![];
     let mut ctx = vec![];
+    let mut hb = HangBudget::new(LIMIT_S, 4, 2);
     for r in 0..10 {
-        run_scenario(rep, &format!("replay{}", r), &sc, &mut reqs, &mut ctx);
+        run_scenario(rep, &mut hb, &format!("replay{}", r), &sc, &mut reqs, &mut ctx);
+    }
+    let answers = run_model(&reqs, &rep.workdir, "replay");
+    for (i, a) in answers.iter().enumerate() {
+        let exit = ctx[i]["exit"].as_i64().unwrap_or(-1);
+        if !a.starts_with(&format!("accepted exit={} ", if exit == 0 { 0 } else { 1 })) {
+            rep.fail("disagreement", None, format!("replayed run: the event log (process exit {}) is not a run of the Pipeline model ({})", exit, a),
+                json!({"context": ctx[i], "request": reqs[i], "model": a}));
+        }
     }
 }
 
